@@ -1058,6 +1058,9 @@ class _Built:
         self.type = tag
         self.coordinates = coords
 
+    def model_copy(self, **kw):     # a result handed out of (or into) a cache as a copy
+        return self
+
 
 class _CtorMeta(type):
     """the nine geometry classes as the traced code sees them: `data.X(coordinates=...)` runs the class's own
@@ -1096,9 +1099,34 @@ class _DataProxy:
 
 
 class _StubGeometry:
+    """the argument of a traced call; what code that keys a cache by the whole geometry may ask of it is there too"""
+
     def __init__(self, type, coordinates):
         self.type = type
         self.coordinates = coordinates
+
+    def model_dump(self, **kw):
+        return {"type": self.type, "coordinates": self.coordinates}
+
+    def model_dump_json(self, **kw):
+        return json.dumps(self.model_dump(), default=repr)
+
+    def model_copy(self, **kw):
+        return self
+
+
+class _TolerantJson:
+    """`json` as the traced code sees it: symbolic numbers serialise as their terms (cache keys)"""
+
+    def __init__(self, real):
+        self._real = real
+
+    def __getattr__(self, name):
+        return getattr(self._real, name)
+
+    def dumps(self, obj, *a, **kw):
+        kw.setdefault("default", repr)
+        return self._real.dumps(obj, *a, **kw)
 
 
 class _Marker:
@@ -1155,12 +1183,50 @@ _WITNESS = {"TimeStamp": (["t"], "(.timeStamp t)"), "TimeInterval": (["s", "e"],
             "MultiLineString": ([], "(.multiLineString [])"), "MultiPolygon": ([], "(.multiPolygon [])")}
 
 
+def _module_state(mod):
+    """the mutable containers (and memoising functions) at the top level of a module"""
+    return {n: copy.copy(v) for n, v in list(vars(mod).items())
+            if isinstance(v, (dict, list, set)) and not n.startswith("__")}
+
+
+def _stateless(mod, thunk):
+    """the path-exhaustive tracer replays `thunk` once per path and needs every replay to start from the same
+    state: module-level containers (a cache) are put back to what they held before the trace, memoising functions
+    are cleared; a trace therefore describes a call in a fresh process (later calls: histories, purity monitors)"""
+    snap = _module_state(mod)
+
+    def wrapped():
+        for n, v in snap.items():
+            cur = getattr(mod, n, None)
+            if type(cur) is type(v):
+                if isinstance(cur, list):
+                    cur[:] = v
+                else:
+                    cur.clear()
+                    cur.update(v)
+        for v in list(vars(mod).values()):
+            cc = getattr(v, "cache_clear", None)
+            if callable(cc):
+                try:
+                    cc()
+                except Exception:  # noqa: BLE001
+                    pass
+        return thunk()
+    return wrapped
+
+
 def _symbolic_ties(ctx):
     import soundevent.geometry.operations as ops
     from soundevent import data as real_data
     tb, fb = Sym.var("tb"), Sym.var("fb")
     sy = {n: Sym.var(n) for n in ["t", "s", "l", "e", "h", "f"]}
-    orig = {n: getattr(ops, n, None) for n in ("data", "geometry_to_shapely", "buffer_shapely_geometry")}
+    orig = {n: getattr(ops, n, None) for n in ("data", "geometry_to_shapely", "buffer_shapely_geometry", "json")}
+    # symbolic numbers may be used as (parts of) dictionary keys while these traces run: a cache keyed by the whole
+    # input is then traced like any other code (a hit is decided by the path oracle through `==`)
+    saved_hash = Sym.__hash__
+    Sym.__hash__ = lambda self: hash(self.e)
+    if orig["json"] is not None:
+        ops.json = _TolerantJson(orig["json"])
     ops.data = _DataProxy(real_data)
     ops.geometry_to_shapely = lambda g: _Marker(g)
     ops.buffer_shapely_geometry = (lambda shp, time_buffer=0, freq_buffer=0, **kw:
@@ -1179,7 +1245,7 @@ def _symbolic_ties(ctx):
         ]
         for (fname, V, thunk, mterm), ty in zip(closed, CLOSED):
             name = "ext_" + fname
-            _tie_valid(ctx, name, thunk, V, mterm, _WITNESS[ty][1], {"op": "buffer_closed"})
+            _tie_valid(ctx, name, _stateless(ops, thunk), V, mterm, _WITNESS[ty][1], {"op": "buffer_closed"})
         # guard + dispatch of buffer_geometry, for every type tag
         for ty in gen_geom.TYPES:
             cv, witness = _WITNESS[ty]
@@ -1188,16 +1254,17 @@ def _symbolic_ties(ctx):
             name = "ext_buffer_geometry_" + ty
             if ty in CLOSED:
                 _tie_valid(ctx, name,
-                           lambda ty=ty, coords=coords: ops.buffer_geometry(_StubGeometry(ty, coords), time_buffer=tb, freq_buffer=fb),
+                           _stateless(ops, lambda ty=ty, coords=coords: ops.buffer_geometry(_StubGeometry(ty, coords), time_buffer=tb, freq_buffer=fb)),
                            cv + ["tb", "fb"], f"SE.Buf.bufferGeometry {_LIB} {witness} tb fb", witness, {"op": "buffer_closed"})
                 continue
             symx.sym_tie(ctx, name,
-                         lambda ty=ty, coords=coords: ops.buffer_geometry(_StubGeometry(ty, coords), time_buffer=tb, freq_buffer=fb),
+                         _stateless(ops, lambda ty=ty, coords=coords: ops.buffer_geometry(_StubGeometry(ty, coords), time_buffer=tb, freq_buffer=fb)),
                          cv + ["tb", "fb"], "Option SE.Geom",
                          f"SE.Buf.bufferGeometry {_LIB} {witness} tb fb", _geom_leaf,
                          tactic=_tactic(name),
                          meta={"op": "buffer_shapely"})
     finally:
+        Sym.__hash__ = saved_hash
         for n, v in orig.items():
             if v is not None:
                 setattr(ops, n, v)
